@@ -18,8 +18,6 @@ Proof.
   intros H. unfold take, zlen in *. rewrite firstn_app.
   replace (Z.to_nat n - length a)%nat with 0%nat by lia. cbn [firstn]. apply app_nil_r.
 Qed.
-Lemma take_all {A} (l : list A) : take (zlen l) l = l.
-Proof. unfold take, zlen. rewrite Nat2Z.id. apply firstn_all. Qed.
 
 (* the preserved part of an object that was itself produced by a builder is the preserved part of the original *)
 Lemma keep_hdr_prefix k (old : list Z) p rest : zlen p = hdr_size k -> keep_hdr k (p ++ rest) = p.
